@@ -24,6 +24,18 @@ Init ==
                               sc = [kind |-> "memcopy", n |-> n, r |-> r, w |-> w, expect |-> [i \in 1 .. 12 |-> MemCopy(Mem0, n, r, w)[99 + i]]]
     [] KIND = "pipe" -> \E n \in 0 .. 5, w \in {100, 103} :
                               sc = [kind |-> "pipe", n |-> n, w |-> w, expect |-> [i \in 1 .. 12 |-> PipeWords(Mem0, [j \in 1 .. 5 |-> 20 + j], n, w)[99 + i]], ptr |-> w + n]
+    [] KIND = "pipe2" -> \E n \in {2, 4}, w \in {100, 103, 106} :
+                              sc = [kind |-> "pipe2", n |-> n, w |-> w, expect |-> [i \in 1 .. 12 |-> PipeWords(Mem0, [j \in 1 .. 5 |-> 20 + j], n, w)[99 + i]], ptr |-> w + n]
+    [] KIND = "mmrfn" ->
+         LET U32 == {<<0, 0>>, <<1, 0>>, <<2, 0>>, <<3, 0>>, <<5, 0>>, <<7, 0>>, <<65535, 0>>, <<65535, 1>>, <<65535, 32767>>, <<65535, 65535>>, <<0, 1>>,
+                     <<0, 32768>>, <<65534, 65535>>, <<21845, 21845>>, <<43690, 43690>>, <<32767, 0>>, <<32768, 0>>, <<1, 32768>>}
+             F64 == {<<v[1], v[2], 0, 0>> : v \in U32} \cup {<<65535, 65535, 1, 0>>, <<65535, 65535, 65535, 32767>>, <<0, 0, 65535, 65535>>, <<65535, 65535, 65535, 0>>,
+                     <<65535, 65535, 0, 1>>, <<65535, 32767, 65535, 32767>>, <<65535, 65535, 3, 0>>, <<65535, 65535, 65534, 65535>>}
+         IN \/ \E v \in U32 : sc = [kind |-> "mmrfn", fn |-> "u32unchecked_trailing_ones", arg |-> v, ok |-> TRUE, expect |-> <<<<TrailingOnes(v)>>>>]
+            \/ \E v \in F64 : sc = [kind |-> "mmrfn", fn |-> "trailing_ones", arg |-> v, ok |-> TRUE, expect |-> <<<<TrailingOnes(v)>>>>]
+            \/ \E v \in U32 : sc = [kind |-> "mmrfn", fn |-> "ilog2_checked", arg |-> v, ok |-> (v # <<0, 0>>),
+                                    expect |-> IF v = <<0, 0>> THEN <<>> ELSE <<<<ILog2L(v)>>, Pow2L(ILog2L(v), 2)>>]
+            \/ \E np \in 0 .. 40 : sc = [kind |-> "mmrfn", fn |-> "num_peaks_to_message_size", arg |-> <<np>>, ok |-> TRUE, expect |-> <<<<PeakWords(np)>>>>]
     [] KIND = "mmr" -> \E n \in 1 .. MaxLeaves :
                               LET leaves == [i \in 1 .. n |-> i] IN
                               sc = [kind |-> "mmr", n |-> n, peaks |-> Peaks(leaves, 1), npeaks |-> PopCount(n), gets |-> [p \in 0 .. n - 1 |-> MmrGet(leaves, p)]]
